@@ -17,6 +17,7 @@ import (
 	g "github.com/zenon-network/go-zenon/chain/genesis/mock"
 	"github.com/zenon-network/go-zenon/chain/nom"
 	"github.com/zenon-network/go-zenon/common/types"
+	"github.com/zenon-network/go-zenon/wallet"
 
 	"verif/harness/simnet"
 )
@@ -35,7 +36,7 @@ var c15GenericPre = []string{"valid", "random", "truncated", "empty", "oversize"
 var c15Specific = map[uint64][]string{
 	0: {"wrong-genesis", "wrong-network", "wrong-version", "td-max", "td-zero", "head-zero", "head-unknown", "extra-fields", "missing-fields", "big-ints"},
 	1: {"one-unknown", "1000-unknown", "300-unknown", "known", "dup-1000", "short-hash", "long-hash"},
-	2: {"known-block", "new-valid-block", "bad-signature", "zero-block", "amount-max", "height-zero", "height-max", "dup-1000", "nested-descendants", "contract-send-type", "unknown-type", "huge-data", "garbage-pubkey"},
+	2: {"known-block", "new-valid-block", "two-new-valid-blocks", "new-valid-then-garbage", "four-new-valid-blocks", "bad-signature", "zero-block", "amount-max", "height-zero", "height-max", "dup-1000", "nested-descendants", "contract-send-type", "unknown-type", "huge-data", "garbage-pubkey"},
 	3: {"known-hash-amt0", "known-hash-amt1", "known-hash-amt512", "known-hash-amt513", "known-hash-amt1000", "known-hash-amtmax", "genesis-hash-amtmax", "mid-hash-amt1000", "unknown-hash", "zero-hash", "amount-overflow"},
 	4: {"one-unknown", "1000-unknown", "known", "100k-hashes"},
 	5: {"one-known", "one-unknown", "128-known", "129-known", "1000-known", "1000-unknown", "1000-mixed", "dup-1000", "genesis", "short-hash"},
@@ -324,6 +325,26 @@ func c15Make(e *c15Env, rng *rand.Rand, code uint64, class string) *c15Msg {
 				TokenStandard: types.ZnnTokenStandard, Amount: big.NewInt(int64(1 + rng.Intn(1000)))}, g.User7); err == nil {
 				blocks = []*nom.AccountBlock{simnet.CloneBlock(tx.Block)}
 			} else {
+				blocks = []*nom.AccountBlock{c15FakeBlock(rng, e)}
+			}
+		case "two-new-valid-blocks", "new-valid-then-garbage", "four-new-valid-blocks":
+			// blocks the TARGET has never seen and accepts: generated against its own ledger by accounts that are quiet on
+			// the producer's chain (what the initial transaction sync of an honest peer sends in one message)
+			n := 2
+			if class == "four-new-valid-blocks" {
+				n = 4
+			}
+			for i, kp := range []*wallet.KeyPair{g.User4, g.User5, g.User1, g.User2}[:n] {
+				if class == "new-valid-then-garbage" && i == 1 {
+					blocks = append(blocks, c15FakeBlock(rng, e))
+					continue
+				}
+				if tx, err := e.T.Generate(&nom.AccountBlock{BlockType: nom.BlockTypeUserSend, Address: kp.Address, ToAddress: g.User8.Address,
+					TokenStandard: types.ZnnTokenStandard, Amount: big.NewInt(int64(1 + rng.Intn(1000)))}, kp); err == nil {
+					blocks = append(blocks, simnet.CloneBlock(tx.Block))
+				}
+			}
+			if len(blocks) == 0 {
 				blocks = []*nom.AccountBlock{c15FakeBlock(rng, e)}
 			}
 		case "bad-signature":
